@@ -186,7 +186,7 @@ def expr_runs(tier, seed, flavour="plain", scalars=("Q", "d"), nrandom=None,
     return runs
 
 
-EXPR_RULE = ("programs: a committed catalogue of 51 operator expressions "
+EXPR_RULE = ("programs: a committed catalogue of 55 operator expressions "
              "(every scalar overload c*E E*c E/c E+c c+E E-c c-E -E with the "
              "spline's own type and with int/long/unsigned/size_t (and, for "
              "floating types, float/double/long double) scalars, sums of "
@@ -537,7 +537,9 @@ def c18_runs(tier, seed):
         RunSpec("threads", "d", "nochk", q(tier, 640, 60000), shards=32, libs=th),
         # forced preemption: the same workload pinned to two cores
         RunSpec("threads", "d", "nochk", q(tier, 96, 6000), shards=4, libs=th,
-                wrapper=["taskset", "-c", "0,1"], name="threads-pinned"),
+                params={"pin": 2}),
+        RunSpec("threads", "d", "tsan", q(tier, 32, 800), shards=q(tier, 8, 80),
+                libs=th, params={"pin": 2, "len": 16}),
     ]
     if tier == "thorough":
         runs += [RunSpec("threads", "d", "tsan-clang", 2000, shards=200, libs=th),
@@ -565,7 +567,8 @@ reg(Spec(
           "same script run sequentially AFTER the concurrent phase. Runs are "
           "split over many short-lived processes so that first-use "
           "initialisation happens under contention, plus one pass pinned to "
-          "two cores. distinct_nontrivial counts distinct (round, order in "
+          "two cores (sched_setaffinity inside the driver, also under TSan). "
+          "distinct_nontrivial counts distinct (round, order in "
           "which the threads completed their first action) signatures."),
     required=["rounds", "operations", "threads:2", "threads:32",
               "overlap:evaluate|evaluate", "overlap:add|multiply",
@@ -1052,7 +1055,7 @@ reg(Spec(
                  "add", "sub", "mul", "add-assign", "sub-assign", "scalar-left",
                  "scalar-right", "scalar-div", "negate", "mul-assign",
                  "div-assign", "mul-assign-alias", "cross-order-assign",
-                 "linear-combination")],
+                 "linear-combination")] + ["scalar:zero"],
     assumptions=[DYADIC, MODEL, "orders 0..4 in the pool (0..6 thorough); "
                  "products up to order 8 are checked but not stored"],
     evaluations=["c03:checked:" + k for k in (
@@ -1089,6 +1092,7 @@ reg(Spec(
               "step:move-construct", "step:move-assign", "step:self-assign",
               "step:self-move", "step:cross-order-assign",
               "step:construct-empty", "step:construct-point", "step:destroy",
+              "step:support-move", "c10:moved-from-support-checked",
               "step:fail-add-assign", "step:fail-ctor-count",
               "step:fail-lincomb", "step:fail-factor", "step:fail-grid-ctor"],
     assumptions=["histories of 150 steps over 15+5 objects; orders 0..4 "
